@@ -1,0 +1,28 @@
+//! Verification hooks, compiled only with `--cfg decaf377_verif` (never in normal builds).
+//!
+//! They let an external harness play the adversarial prover: substitute the out-of-circuit hint of the
+//! inverse-square-root gadget, and build an `Element` from arbitrary affine coordinates without any check.
+extern crate std;
+use std::cell::RefCell;
+
+use crate::{Element, Fq};
+
+std::thread_local! {
+    static ISQRT_HINT: RefCell<Option<(bool, Fq)>> = RefCell::new(None);
+}
+
+/// Set (or clear) the hint pair that `FqVarExtension::isqrt` will witness instead of the honestly computed one.
+pub fn set_isqrt_hint(hint: Option<(bool, Fq)>) {
+    ISQRT_HINT.with(|h| *h.borrow_mut() = hint);
+}
+
+pub(crate) fn isqrt_hint_override() -> Option<(bool, Fq)> {
+    ISQRT_HINT.with(|h| *h.borrow())
+}
+
+/// An `Element` with the given affine coordinates of its inner curve point; nothing is checked.
+pub fn element_from_affine_unchecked(x: Fq, y: Fq) -> Element {
+    Element {
+        inner: crate::ark_curve::EdwardsProjective::new_unchecked(x, y, x * y, Fq::ONE),
+    }
+}
